@@ -1,9 +1,12 @@
 //! rlv: verification drivers around the real risinglight crate (built with feature `verif`).
 mod enc;
 mod handler;
+mod kern;
 mod lab;
+mod planops;
 mod sched;
 mod sqlrun;
+mod vals;
 
 fn main() {
     let args: Vec<String> = std::env::args().collect();
@@ -11,6 +14,7 @@ fn main() {
     match cmd {
         "sql" => sqlrun::main(&args[2..]),
         "lab" => lab::main(&args[2..]),
+        "kern" => kern::main(&args[2..]),
         "sched" => sched::main(&args[2..]),
         _ => {
             eprintln!("usage: rlv sql [--mt N]");
